@@ -167,6 +167,9 @@ def run(ctx):
         dlrules.digest_intact(ck, prog, config, 'C15-d', ('validate_chunk',))
         from . import c19 as _c19
         _c19.shared_scratch(ck, prog, config, 'C15-e', ('comp_read',), 'unit decoding')
+        # the comparison length is the digest size: a digest size kept in too few bits compares nothing
+        from ..rules import fielddom as _fd15
+        _fd15.check_bitfields(ck, prog, config, 'C15-f')
         for e in ends:
             unit_decoding = bool(reaches(prog, e, ('comp_add_to_dc',)))
             d = decs.get(e.unit)
